@@ -274,6 +274,11 @@ class Interp:
             self.state = State()
             self.ctx = Ctx(trail=trail)
             args, kwargs = setup(self)
+            if "staticmethod" in fi.decorators and fi.cls and not fi.node.args.vararg:
+                # (the rules hand the object over as first argument; a method that was made static does not take it)
+                npos = len(fi.node.args.posonlyargs) + len(fi.node.args.args)
+                if len(args) == npos + 1 - sum(1 for k in kwargs if k in [a.arg for a in fi.node.args.args]) or len(args) > npos:
+                    args = list(args)[1:]
             try:
                 try:
                     v = self.call_function(fi, args, kwargs, None, force_inline=True)
@@ -359,6 +364,14 @@ class Interp:
         if isinstance(v, PredV):
             return v.p
         if isinstance(v, Sym):
+            lab = v.label
+            if isinstance(lab, tuple) and lab[:1] == ("slice",) and len(lab) == 4 and lab[2] is None and isinstance(lab[3], tuple) and lab[3][:1] == ("c",) \
+                    and isinstance(lab[3][1], int) and lab[3][1] < 0 and isinstance(lab[1], tuple) and lab[1][:1] == ("elem",) and lab[1][2] == "partition":
+                # all but the last n layers of the stored partition: non-empty iff the partition has more than n layers
+                from . import models as M
+
+                n_ = M._len(self, [v], {}, None)
+                return pred_not(self.compare_pos("Eq", n_, Const(0), None))
             return ("truthy", v.label)
         if isinstance(v, LinV):
             if F.lin_is_const(v.lin):
@@ -521,6 +534,27 @@ class Interp:
             cache[key] = found
         return cache[key]
 
+    def _constant_expression(self, node, mod, depth=0) -> bool:
+        """A module-level initialiser built from constants, other such module-level names and a few pure builtins
+        (`len(PREFIX) + 1`, `A + B`, `-N`, `tuple(NAMES)`): evaluated like a constant."""
+        if depth > 6:
+            return False
+        if isinstance(node, ast.Constant):
+            return True
+        if isinstance(node, ast.Name):
+            g = self.prog.modules[mod].globals_.get(node.id)
+            return g is not None and not self._global_rebound(mod, node.id) and (isinstance(g, ast.Constant) or self._constant_expression(g, mod, depth + 1))
+        if isinstance(node, ast.UnaryOp):
+            return self._constant_expression(node.operand, mod, depth + 1)
+        if isinstance(node, ast.BinOp):
+            return self._constant_expression(node.left, mod, depth + 1) and self._constant_expression(node.right, mod, depth + 1)
+        if isinstance(node, (ast.Tuple,)):
+            return all(self._constant_expression(e, mod, depth + 1) for e in node.elts)
+        if isinstance(node, ast.Call) and isinstance(node.func, ast.Name) and node.func.id in ("len", "int", "str", "float", "bool", "tuple", "frozenset", "abs", "min", "max") \
+                and node.func.id not in self.prog.modules[mod].globals_ and not node.keywords:
+            return all(self._constant_expression(a, mod, depth + 1) for a in node.args)
+        return False
+
     def _global_rebound(self, mod: str, attr: str) -> bool:
         """Is the module-level name assigned again somewhere (a `global NAME` in a function of the module, or a second
         module-level assignment)?"""
@@ -609,7 +643,7 @@ class Interp:
                 return self.state.globals_objs[dotted]
             # module-level constants and simple aliases are evaluated in a scratch frame of that module
             if isinstance(gnode, (ast.Constant, ast.Name, ast.Attribute, ast.List, ast.Tuple, ast.Dict, ast.Set)) \
-                    or (isinstance(gnode, ast.UnaryOp) and isinstance(gnode.operand, ast.Constant)):
+                    or (isinstance(gnode, ast.UnaryOp) and isinstance(gnode.operand, ast.Constant)) or self._constant_expression(gnode, mod):
                 self.state.frames.append(Frame(None, mod, None, fid=self.state.fresh("fid")))
                 try:
                     return self.eval(gnode)
@@ -1233,6 +1267,8 @@ class Interp:
                 return Const(v.qualname.rsplit(".", 1)[1])
             if attr == "_fields" and self._record_fields(v.qualname) is not None and self.__dict__.get("_record_kind", {}).get(v.qualname) == "namedtuple":
                 return TupleV(tuple(Const(nm) for nm, _ in self._record_fields(v.qualname)))
+            if attr == "_make" and self._record_fields(v.qualname) is not None and self.__dict__.get("_record_kind", {}).get(v.qualname) == "namedtuple":
+                return Sym(("record-make", v.qualname), "callable")
             return Sym(("classattr", v.qualname, attr))
         if isinstance(v, ExtV):
             if v.name.startswith("module:"):
@@ -1494,6 +1530,10 @@ class Interp:
         if isinstance(key, (PredV, Sym)) and o.entries and not o.each and not o.sym and set(o.entries) <= {True, False} and (isinstance(key, PredV) or key.hint == "bool"):
             # a table with the two truth values as keys, looked up with a symbolic Boolean: whichever it is
             key = Const(bool(self.truth(key)))
+        if isinstance(key, TupleV) and o.entries and not o.each and not o.sym and any(isinstance(x, (PredV,)) or (isinstance(x, Sym) and x.hint == "bool") for x in key.items) \
+                and all(isinstance(k_, tuple) and len(k_) == len(key.items) and all(isinstance(b_, bool) for b_ in k_) for k_ in o.entries):
+            # a table keyed by tuples of truth values, looked up with symbolic Booleans: whichever they are
+            key = TupleV(tuple(Const(bool(self.truth(x))) if isinstance(x, (PredV, Sym)) else x for x in key.items))
         ck = self.dict_key(key)
         if ck is not None and ck[1] in o.entries:
             return o.entries[ck[1]]
@@ -1885,6 +1925,33 @@ class Interp:
             # comprehension variables live in the comprehension frame; everything else in the function frame
             self.frame.env[target.id] = value
             return
+        if isinstance(target, (ast.Tuple, ast.List)) and sum(isinstance(e, ast.Starred) for e in target.elts) == 1 \
+                and not (isinstance(value, TupleV) or (isinstance(value, Ref) and isinstance(self.deref(value), HList) and self.deref(value).concrete())):
+            # first, *middle, last = xs  on a sequence of unknown length: positions from both ends and the slice between them
+            k = next(i for i, e in enumerate(target.elts) if isinstance(e, ast.Starred))
+            after = len(target.elts) - k - 1
+            for i, e in enumerate(target.elts):
+                if i < k:
+                    self.assign(e, self.subscript(value, Const(i), target))
+                elif i == k:
+                    self.assign(e.value, self.slice(value, Const(k) if k else None, Const(-after) if after else None, None, target))
+                else:
+                    self.assign(e, self.subscript(value, Const(i - len(target.elts)), target))
+            return
+        if isinstance(target, (ast.Tuple, ast.List)) and sum(isinstance(e, ast.Starred) for e in target.elts) == 1:
+            seq = list(value.items) if isinstance(value, TupleV) else self.deref(value).values()
+            k = next(i for i, e in enumerate(target.elts) if isinstance(e, ast.Starred))
+            after = len(target.elts) - k - 1
+            if len(seq) < k + after:
+                self.err(target, "not enough values to unpack")
+            for i, e in enumerate(target.elts):
+                if i < k:
+                    self.assign(e, seq[i])
+                elif i == k:
+                    self.assign(e.value, self.new_list(seq[k:len(seq) - after]))
+                else:
+                    self.assign(e, seq[len(seq) - (len(target.elts) - i)])
+            return
         if isinstance(target, (ast.Tuple, ast.List)):
             items = self.unpack(value, len(target.elts), target)
             for t, v in zip(target.elts, items):
@@ -1967,6 +2034,9 @@ class Interp:
                 if all(s[0] == "one" for s in segs):
                     args.extend(s[1] for s in segs)
                 else:
+                    # handed on as it is: what the callee finds in *args is the content, looking at it here has not used it up
+                    if isinstance(sv, Ref) and isinstance(self.deref(sv), HList) and self.deref(sv).one_shot:
+                        sv = self.alloc(HList(segs, is_set=False))
                     args.append(("star", sv))
             else:
                 args.append(self.eval(a))
@@ -2000,6 +2070,11 @@ class Interp:
             return M.call_external(self, fv, args, kwargs, node)
         if isinstance(fv, LambdaV):
             return self.call_lambda(fv, args, kwargs, node)
+        if isinstance(fv, Sym) and isinstance(fv.label, tuple) and fv.label[:1] == ("record-make",) and len(args) == 1 and not kwargs:
+            segs = self.segments(args[0], node)
+            if all(s_[0] == "one" for s_ in segs):
+                return self.instantiate(fv.label[1], [s_[1] for s_ in segs], {}, node)
+            self.err(node, "_make of a sequence of unknown length")
         if isinstance(fv, Sym) and isinstance(fv.label, tuple) and fv.label[:1] == ("partial",):
             return self.call(fv.label[1], list(fv.label[2]) + list(args), {**dict(fv.label[3]), **kwargs}, node)
         if isinstance(fv, Sym) and isinstance(fv.label, tuple) and fv.label[:1] == ("record-method",):
@@ -2138,6 +2213,9 @@ class Interp:
                         if name_ not in kwargs:
                             break
                         args.append(kwargs[name_])
+                if "staticmethod" in fi.decorators and getattr(fi, "cls", None):
+                    # (summaries are written for the method form: the place of `self` stays, empty)
+                    args = [Const(None)] + list(args)
                 return h(self, fi, args, kwargs, node)
             # self recursion (direct or mutual through the current stack): recorded, not unfolded
             for fr in self.state.frames:
